@@ -83,6 +83,8 @@ impl RuntimeData {
                 })?;
             let table = CaoLangTable::with_capacity(8, self.memory.clone()).map_err(|err| {
                 debug!("Failed to init table {:?}", err);
+                self.memory
+                    .dealloc(obj_ptr, Layout::new::<CaoLangObject>());
                 ExecutionErrorPayload::OutOfMemory
             })?;
 
@@ -217,10 +219,11 @@ impl RuntimeData {
                 })?;
 
             let layout = CaoLangString::layout(payload.len());
-            let mut ptr = self
-                .memory
-                .alloc(layout)
-                .map_err(|_| ExecutionErrorPayload::OutOfMemory)?;
+            let mut ptr = self.memory.alloc(layout).map_err(|_| {
+                self.memory
+                    .dealloc(obj_ptr, Layout::new::<CaoLangObject>());
+                ExecutionErrorPayload::OutOfMemory
+            })?;
 
             let result: *mut u8 = ptr.as_mut();
             std::ptr::copy(payload.as_ptr(), result, payload.len());
@@ -255,6 +258,7 @@ impl RuntimeData {
         self.global_vars.clear();
         self.call_stack.clear();
         self.open_upvalues = std::ptr::null_mut();
+        self.memory.reset_threshold();
     }
 
     fn clear_objects(&mut self) {
@@ -271,6 +275,7 @@ impl RuntimeData {
                 .limit
                 .store(capacity, std::sync::atomic::Ordering::Relaxed);
         }
+        self.memory.reset_threshold();
     }
 
     /// Types implementing Drop are not supported, thus the `Copy` bound
